@@ -84,7 +84,7 @@ type tokSpec struct {
 }
 
 type step struct {
-	op   string // arrive | cancel | release
+	op   string // arrive | cancel | expire | release
 	tok  *tokSpec
 	tid  int
 	resp *respSpec
@@ -194,6 +194,8 @@ func coqScript(s *script) string {
 			items[i] = emit.Ctor("MArrive", coqTok(st.tok))
 		case "cancel":
 			items[i] = emit.Ctor("MCancel", emit.Nat(st.tid))
+		case "expire":
+			items[i] = emit.Ctor("MExpire", emit.Nat(st.tid))
 		default:
 			items[i] = emit.Ctor("MRelease", coqResp(st.resp))
 		}
@@ -293,6 +295,9 @@ type runner struct {
 	maxWait  time.Duration
 	settle   time.Duration
 	timeouts int
+	dlBase   time.Duration // deadline of a caller that will be expired = now + dlBase + dlStep * (steps until its Expire)
+	dlStep   time.Duration
+	tainted  bool // a deadline passed before the script reached its Expire step: the run does not count
 }
 
 // parked counts goroutines parked in a select whose stack mentions needle.
@@ -368,7 +373,7 @@ func classify(payload []byte, err error, want []byte) string {
 		return "SOk"
 	case err == nil:
 		return "SOkBad"
-	case errors.Is(err, context.Canceled):
+	case errors.Is(err, context.Canceled), errors.Is(err, context.DeadlineExceeded):
 		return "(SErr ECtx)"
 	case errors.Is(err, oidc.ErrKeyNone):
 		return "(SErr ENoKey)"
@@ -405,11 +410,40 @@ func (rn *runner) run(s *script) (snaps []snap, panicked bool) {
 		cancel context.CancelFunc
 	}
 	ctxs := map[int]*cctx{}
-	ctxOf := func(t int) *cctx {
+	// plan: which callers die by deadline, and at which step
+	arriveIdx, expireIdx := map[int]int{}, map[int]int{}
+	nArr := 0
+	for i, st := range s.steps {
+		switch st.op {
+		case "arrive":
+			arriveIdx[nArr] = i
+			nArr++
+		case "expire":
+			if _, ok := expireIdx[st.tid]; !ok {
+				expireIdx[st.tid] = i
+			}
+		}
+	}
+	deadlines := map[int]time.Time{}
+	// ctxOf(t, i): the context of caller t, created at step i if it does not exist yet
+	ctxOf := func(t, i int) *cctx {
 		if c, ok := ctxs[t]; ok {
 			return c
 		}
-		ctx, cancel := context.WithCancel(context.Background())
+		var ctx context.Context
+		var cancel context.CancelFunc
+		ei, expires := expireIdx[t]
+		ai, arrives := arriveIdx[t]
+		switch {
+		case expires && ei == i && (!arrives || ai > i): // deadline already passed when the call begins
+			ctx, cancel = context.WithDeadline(context.Background(), time.Now().Add(-time.Second))
+		case expires && arrives && ai == i && ei > i: // real deadline, reached at the Expire step
+			d := time.Now().Add(rn.dlBase + time.Duration(ei-i)*rn.dlStep)
+			deadlines[t] = d
+			ctx, cancel = context.WithDeadline(context.Background(), d)
+		default:
+			ctx, cancel = context.WithCancel(context.Background())
+		}
 		ctxs[t] = &cctx{ctx, cancel}
 		return ctxs[t]
 	}
@@ -421,14 +455,14 @@ func (rn *runner) run(s *script) (snaps []snap, panicked bool) {
 			c.cancel()
 		}
 	}()
-	for _, st := range s.steps {
+	for si, st := range s.steps {
 		delivered := false
 		switch st.op {
 		case "arrive":
 			t := len(callers)
 			cs := &callerState{}
 			callers = append(callers, cs)
-			ctx := ctxOf(t).ctx
+			ctx := ctxOf(t, si).ctx
 			tok := st.tok
 			jws, err := jose.ParseSigned(tok.compact, allAlgs)
 			must(err)
@@ -444,11 +478,25 @@ func (rn *runner) run(s *script) (snaps []snap, panicked bool) {
 				cs.done.Store(true)
 			}()
 		case "cancel":
-			ctxOf(st.tid).cancel()
+			ctxOf(st.tid, si).cancel()
+		case "expire":
+			// let the deadline pass (the timer, not the script, ends the context), then give
+			// timers that share the deadline a moment to fire before looking for quiescence
+			select {
+			case <-ctxOf(st.tid, si).ctx.Done():
+			case <-time.After(10 * time.Second):
+			}
+			delete(deadlines, st.tid)
+			time.Sleep(2*time.Millisecond + rn.settle)
 		case "release":
 			delivered = g.release(st.resp)
 		}
 		rn.quiesce(ks, g, callers)
+		for _, d := range deadlines { // a deadline that is (nearly) over before its Expire step
+			if !time.Now().Before(d.Add(-2 * time.Millisecond)) {
+				rn.tainted = true
+			}
+		}
 		req, _ := g.state()
 		sn := snap{Req: req, Delivered: delivered, Cache: []int{}}
 		for _, c := range callers {
@@ -602,6 +650,14 @@ func (g *gen) failResp(set []*jwkSpec) *respSpec {
 	}
 }
 
+// the two ways a caller's own context dies: cancel() or its deadline passing
+func (g *gen) dieOp() string {
+	if g.r.Chance(1, 3) {
+		return "expire"
+	}
+	return "cancel"
+}
+
 func (g *gen) randomScript() *script {
 	s := &script{skip: g.r.Chance(1, 5)}
 	target := 2 + g.r.IntN(5)
@@ -616,11 +672,11 @@ func (g *gen) randomScript() *script {
 			s.steps = append(s.steps, step{op: "arrive", tok: g.randToken(tl, idx)})
 			arrived++
 			if g.r.Chance(1, 5) {
-				s.steps = append(s.steps, step{op: "cancel", tid: g.r.IntN(target)})
+				s.steps = append(s.steps, step{op: g.dieOp(), tid: g.r.IntN(target)})
 			}
 		}
 		if g.r.Chance(1, 4) {
-			s.steps = append(s.steps, step{op: "cancel", tid: g.r.IntN(arrived)})
+			s.steps = append(s.steps, step{op: g.dieOp(), tid: g.r.IntN(arrived)})
 		}
 		if arrived < target || g.r.Chance(9, 10) {
 			if g.r.Chance(7, 10) {
@@ -669,6 +725,17 @@ func (g *gen) directed(which int) *script {
 		s.tags = []string{"shape=joiner_cancel"}
 		add(step{op: "arrive", tok: valid(0)}, step{op: "arrive", tok: valid(0)}, step{op: "arrive", tok: valid(0)},
 			step{op: "cancel", tid: 1 + g.r.IntN(2)}, step{op: "release", resp: g.goodResp(tl[0])})
+	case 6: // the owner of the download carries a deadline that passes while others wait
+		s.tags = []string{"shape=owner_expire"}
+		add(step{op: "arrive", tok: valid(0)})
+		for k := 1 + g.r.IntN(3); k > 0; k-- {
+			add(step{op: "arrive", tok: valid(0)})
+		}
+		add(step{op: "expire", tid: 0}, step{op: "release", resp: g.goodResp(tl[0])})
+	case 7: // a joiner's deadline passes
+		s.tags = []string{"shape=joiner_expire"}
+		add(step{op: "arrive", tok: valid(0)}, step{op: "arrive", tok: valid(0)}, step{op: "arrive", tok: valid(0)},
+			step{op: "expire", tid: 1 + g.r.IntN(2)}, step{op: "release", resp: g.goodResp(tl[0])})
 	case 3: // rotation: warm cache, new key appears, old and new tokens
 		s.tags = []string{"shape=rotation", "rotate=1"}
 		add(step{op: "arrive", tok: valid(0)}, step{op: "release", resp: g.goodResp(tl[0])})
@@ -712,6 +779,12 @@ func (s *script) finishTags() {
 			nCan++
 			if st.tid >= nArr {
 				add("precancel=1")
+			}
+		case "expire":
+			nCan++
+			add("expire=1")
+			if st.tid >= nArr {
+				add("preexpire=1")
 			}
 		default:
 			nRel++
@@ -928,7 +1001,7 @@ func main() {
 	for i := 0; i < n; i++ {
 		var s *script
 		if i%4 == 0 {
-			s = g.directed((i / 4) % 6)
+			s = g.directed((i / 4) % 8)
 		} else {
 			s = g.randomScript()
 		}
@@ -937,21 +1010,26 @@ func main() {
 			w.Add(emit.Case{Input: "(Script false [])", Observed: "(OScript [])"})
 			continue
 		}
-		// run twice with different pacing; a script whose two observations differ is
-		// re-run with longer waits (DESIGN App. C) and the last observation counts
-		rn := &runner{pool: pool, maxWait: maxWait}
-		snaps, pan := rn.run(s)
-		rn2 := &runner{pool: pool, maxWait: maxWait, settle: 300 * time.Microsecond}
-		snaps2, pan2 := rn2.run(s)
-		timeouts += rn.timeouts + rn2.timeouts
-		for k := 1; k <= 3 && (pan != pan2 || !reflect.DeepEqual(snaps, snaps2)); k++ {
+		// run twice with different pacing; a script whose two observations differ (or in which
+		// a deadline ran out before its Expire step) is re-run with longer waits and longer
+		// deadlines (DESIGN App. C); the last observation counts
+		runBoth := func(mw, settle, dl time.Duration) (a, b []snap, pa, pb, tainted bool) {
+			r1 := &runner{pool: pool, maxWait: mw, settle: settle, dlBase: dl, dlStep: dl / 8}
+			a, pa = r1.run(s)
+			r2 := &runner{pool: pool, maxWait: mw, settle: settle + 300*time.Microsecond, dlBase: dl, dlStep: dl / 8}
+			b, pb = r2.run(s)
+			timeouts += r1.timeouts + r2.timeouts
+			return a, b, pa, pb, r1.tainted || r2.tainted
+		}
+		dl := 25 * time.Millisecond
+		snaps, snaps2, pan, pan2, tainted := runBoth(maxWait, 0, dl)
+		for k := 1; k <= 3 && (tainted || pan != pan2 || !reflect.DeepEqual(snaps, snaps2)); k++ {
 			reruns++
 			if k == 3 {
 				unstable++
 			}
-			snaps, pan = snaps2, pan2
-			rk := &runner{pool: pool, maxWait: maxWait * 10, settle: time.Duration(k) * 3 * time.Millisecond}
-			snaps2, pan2 = rk.run(s)
+			dl *= 4
+			snaps, snaps2, pan, pan2, tainted = runBoth(maxWait*10, time.Duration(k)*3*time.Millisecond, dl)
 		}
 		human := map[string]any{"skip": s.skip, "snapshots": snaps2}
 		var hs []string
@@ -961,6 +1039,8 @@ func main() {
 				hs = append(hs, fmt.Sprintf("arrive tok{kind=%s kid=%q alg=%s signer=%d}", st.tok.kind, st.tok.kid, st.tok.signer.alg, st.tok.signer.mat))
 			case "cancel":
 				hs = append(hs, fmt.Sprintf("cancel %d", st.tid))
+			case "expire":
+				hs = append(hs, fmt.Sprintf("expire %d (context.WithDeadline passes)", st.tid))
 			default:
 				b, _ := json.Marshal(string(st.resp.body()))
 				if len(b) > 160 {
@@ -994,8 +1074,8 @@ func main() {
 	}
 	must(w.Close(emit.Meta{
 		Property: "C13", Tier: cfg.Tier, Seed: cfg.Seed,
-		Rule: "each case = one macro-schedule (arrive/cancel/release) of 2-6 concurrent VerifySignature calls on a fresh rp.NewRemoteKeySet " +
-			"behind a gated RoundTripper; 1 in 4 directed shapes (owner cancel, pre-cancelled owner, joiner cancel, rotation, failure keeps cache, unknown kid), " +
+		Rule: "each case = one macro-schedule (arrive/cancel/expire/release; expire = a real context.WithDeadline passing) of 2-6 concurrent VerifySignature calls on a fresh rp.NewRemoteKeySet " +
+			"behind a gated RoundTripper; 1 in 4 directed shapes (owner cancel, pre-cancelled owner, joiner cancel, owner deadline expires, joiner deadline expires, rotation, failure keeps cache, unknown kid), " +
 			"the rest random phases over a timeline of rotating key sets with valid/future/older/unknown-kid/kid-less/wrong-key tokens and good/5xx/5xx-with-JWKS/bad-JSON/junk-only/empty/transport-error answers. " +
 			"Observed = snapshot after every step at quiescence. non-trivial = at least one caller arrived (path != 0); distinct = distinct (input, observed) terms.",
 		Notes: notes,
